@@ -136,7 +136,10 @@ fn bprime_single_field_corruptions_never_panic() {
     match rx.recv_timeout(std::time::Duration::from_secs(120)) {
         Ok(Ok(())) => {}
         Ok(Err(e)) => std::panic::resume_unwind(e),
-        Err(_) => panic!("ELF identification did not return within 120 s (whole enumeration normally takes seconds); it hangs on: {}", CURRENT.lock().map(|g| g.clone()).unwrap_or_default()),
+        Err(_) => {
+            let _ = std::panic::take_hook();   // the worker silenced the hook; the verdict must be visible
+            panic!("ELF identification did not return within 120 s (whole enumeration normally takes seconds); it hangs on: {}", CURRENT.lock().map(|g| g.clone()).unwrap_or_default())
+        }
     }
 }
 
